@@ -306,3 +306,45 @@ def test_c03_copy_of_struct_with_refs_and_small_capacity_strings_stays_in_its_ex
     b.update_from_buffer(tail, b"\x11" * 8)
     assert [c.s[0], c.s[1], c.r.a] == ["", "", 1]
     assert c._offset + c._size <= tail
+
+
+def test_c11_integer_update_denotes_the_dynamic_dimension():
+    class S(xo.Struct):
+        m = xo.Float64[:, 3]
+        k = xo.Int64
+
+    s = S(m=[[1, 2, 3], [4, 5, 6]], k=7)
+    with pytest.raises(ValueError):
+        s.m = 6
+    assert tuple(S._from_buffer(s._buffer, s._offset).m._shape) == (2, 3) and s.k == 7
+    s.m = 2  # the length it has: accepted
+
+
+def test_c11_refused_update_of_static_item_array_changes_nothing():
+    class P(xo.Struct):
+        a = xo.Int64
+
+    class Q(xo.Struct):
+        z = xo.Int64
+
+    class U(xo.UnionRef):
+        _reftypes = (P,)
+
+    class It(xo.Struct):
+        x = xo.Float64
+        u = U
+
+    class H(xo.Struct):
+        items = It[3]
+        k = xo.Int64
+
+    h = H(items=[{"x": 1, "u": None}, {"x": 2, "u": None}, {"x": 3, "u": None}], k=5)
+    with pytest.raises(Exception):
+        h.items = [{"x": 10, "u": None}, {"x": 20, "u": Q(z=1)}, {"x": 30, "u": None}]
+    assert [h.items[i].x for i in range(3)] == [1, 2, 3] and h.k == 5
+
+
+def test_c10_small_numpy_integer_index():
+    a = xo.Float64[:](40)
+    a[np.int8(20)] = 7.0
+    assert a[20] == 7.0 and a[np.uint8(20)] == 7.0 and sum(a[i] for i in range(40)) == 7.0
